@@ -296,6 +296,9 @@ def session_state(ctx, rid):
                 field = e.name.rsplit(".", 1)[-1]
                 ok = (v[0] == "k" and v[1] is True) or (
                     v[0] == "bin" and v[1] == "BitOr" and vkey(v[2]).endswith("." + field) and vkey(v[3]).endswith("." + field))
+                if not ok and vkey(v).endswith("." + field) and vkey(v).startswith("arg2"):
+                    # `self.f = self.f || other.f`: on the path on which self.f was false, the other summary's flag is the OR
+                    ok = any(val is False and k.startswith("arg1") and k.endswith("." + field) for k, val in path.decisions[:e.ndec])
                 r.instance(rid, "ReportedErrors::add %s" % field, "ok" if ok else "violation",
                            "%s:%d" % (add.file, e.line), vkey(v))
                 if not ok:
